@@ -20,7 +20,7 @@ ENTRY = ["adsb_deku::Frame::from_bytes", "adsb_deku::Frame::from_reader", "<adsb
 ALLOW = {
     ("adsb_deku::Frame::read_crc", "call:unwrap"): "read_to_end(..).unwrap(): on the from_bytes path the reader is a Cursor over a slice whose read never fails; arbitrary readers are C19's subject",
     ("<adsb_deku::ReaderCrc<R> as std::io::Read>::read", "call:slice-index"): "&buf[..n]: Read contract n <= buf.len(), met by Cursor",
-    ("rsadsb_common::Airplanes::incr_messages", "assert:Overflow:Add"): "num_messages += 1 on u32: 2^32 frames from one address (about 22 years at the extended-squitter rate)",
+    ("rsadsb_common::Airplanes::incr_messages", "assert:Overflow:Add:u32"): "num_messages += 1 on u32: 2^32 frames from one address (about 22 years at the extended-squitter rate)",
 }
 
 
@@ -134,6 +134,7 @@ def discharge_rule(rep, prog, tier):
     fns = reachable_fns(prog, ENTRY, LIBS)
     n_sites = n_ok = n_allow = n_macro = 0
     matched = set()
+    allow_used = {}
     for path in sorted(fns):
         fn = prog.fns[path]
         for kind, detail, blk, sp in panic_sites(prog, fn):
@@ -152,6 +153,9 @@ def discharge_rule(rep, prog, tier):
                 continue
             if akey in ALLOW:
                 n_allow += 1
+                allow_used[akey] = allow_used.get(akey, 0) + 1
+                if allow_used[akey] > 1:
+                    rep.violation("R1", "%s:%s:%s:more-sites" % (pf, kind, detail), "%s has another undischarged panic site of kind %s %s at %s; the allow-listed reason was confirmed for one site only" % (pf, kind, detail, where), site=where)
                 continue
             if is_external_macro(sp) and (status == "unvisited" or (sp.get("outer_mname") or sp.get("mname")) in LOG_MACROS):
                 # expansion of a dependency's macro: tracing's logging macros (`valueset!` has an expect("FieldSet corrupted") on its own
@@ -169,7 +173,7 @@ def discharge_rule(rep, prog, tier):
             f = prog.fns.get(fpath)
             if f is not None and f["crate"] in LIBS:
                 what = k.split("|")[2] if k.count("|") >= 2 else "?"
-                if (pub_fn(fpath), what) in ALLOW:
+                if any(k0 == pub_fn(fpath) and k1.startswith(what) for (k0, k1) in ALLOW):
                     continue
                 rep.violation("R1", "%s:%s:uninventoried" % (pub_fn(fpath), what), "%s: panic site %s (%s) fails in an analysis run and is not in the reachable-site inventory: %s" % (fpath, what, k.split("|")[1], ob["detail"]), detail={"sources": sorted(ob["sources"])})
     rep.extra["obligations"] = n_sites
